@@ -279,7 +279,12 @@ pub fn impl_(ctx: &Context, input: &DeriveInput) -> TokenStream {
                     #init_ident::#ident #pat => {
                         #set_tag
                         let __flatty_offset = <#self_ident<#self_args>>::DATA_OFFSET;
-                        let __flatty_bytes = __flatty_bytes.get_unchecked_mut(__flatty_offset..);
+                        // Hand out exactly the bytes the view made by `ptr_from_bytes` covers.
+                        let __flatty_len = ::flatty::utils::floor_mul(
+                            __flatty_bytes.len() - __flatty_offset,
+                            <#self_ident<#self_args> as ::flatty::traits::FlatBase>::ALIGN,
+                        );
+                        let __flatty_bytes = __flatty_bytes.get_unchecked_mut(__flatty_offset..(__flatty_offset + __flatty_len));
                         #body
                     }
                 }
